@@ -292,10 +292,15 @@ class Gen:
         if r.random() < .25:
             # braced argument with more than one character: the accent goes to the first one, the others are
             # ordinary copied text with their own offsets
-            acc, base, res = r.choice([("\\'", 'e', 'é'), ('\\v', 'S', 'Š'), ('\\"', 'o', 'ö'), ('\\c', 'C', 'Ç'), ('\\^', 'a', 'â')])
+            # (the first letter may also come from a macro or stand outside ASCII)
+            acc, base, res = r.choice([("\\'", 'e', 'é'), ('\\v', 'S', 'Š'), ('\\"', 'o', 'ö'), ('\\c', 'C', 'Ç'), ('\\^', 'a', 'â'),
+                                       ("\\'", '\\ae ', 'ǽ'), ('\\"', '\\o ', 'ø\u0308'), ("\\'", 'я', 'я\u0301'),
+                                       ('\\^', 'ж', 'ж\u0302'), ('\\v', '\\l{}', 'ł\u030c')])
             more = r.choice(['e', 'k', 'xy', 'ab'])
             self.w(acc + '{' + base)
-            self.cur.append((res, st + 1, st + 1, 'w:accent'))
+            for ch in res:
+                self.cur.append((ch, st + 1, st + 1, 'w:accent'))
+            res = None
             for ch in more:
                 p = self.pos()
                 self.w(ch)
